@@ -33,6 +33,7 @@ type ctlState struct {
 	regConns   []Conn
 	stopNilAt  int // ledger position when a Stop returned nil
 	peerFds    []int
+	stopIssued bool // some user thread has called Stop (any flavour)
 }
 
 type errRunnable struct{ f func() error }
@@ -52,6 +53,11 @@ func (cs *ctlState) do(op string, phase string) {
 	}
 	// expectErr checks err against the reference state machine
 	expectErr := func(err error, runningWant error) {
+		if phase == "running" && cs.stopIssued {
+			// the other user thread has requested the shutdown in the meantime: from here on either
+			// class of answer is acceptable for this call
+			phase = "stopping"
+		}
 		switch phase {
 		case "running":
 			if !errors.Is(err, runningWant) && !(runningWant == nil && err == nil) {
@@ -72,6 +78,9 @@ func (cs *ctlState) do(op string, phase string) {
 		expectErr(eng.Validate(), nil)
 	case "CountConnections":
 		n := eng.CountConnections()
+		if phase == "running" && cs.stopIssued {
+			phase = "stopping"
+		}
 		switch phase {
 		case "running":
 			if n < 0 {
@@ -225,7 +234,8 @@ func (cs *ctlState) do(op string, phase string) {
 			cs.execWant++
 		}
 	case "Stop-live":
-		// only issued by the second thread, while the first one is stopping the engine
+		// only issued by the second thread
+		cs.stopIssued = true
 		err := eng.Stop(context.Background())
 		if err != nil && !errors.Is(err, errorx.ErrEngineInShutdown) {
 			bad("returned %v", err)
@@ -236,6 +246,7 @@ func (cs *ctlState) do(op string, phase string) {
 	case "Stop-cancelled":
 		ctx, cancel := context.WithCancel(context.Background())
 		cancel()
+		cs.stopIssued = true
 		err := eng.Stop(ctx)
 		switch phase {
 		case "stopped":
@@ -312,6 +323,7 @@ func ctlWorld(name string, et bool, concurrent bool, lb LoadBalancing) *world {
 				sched.BlockUntil(func() bool { return w.runDone })
 			} else {
 				// Stop with a live context: nil only after the engine has fully shut down
+				cs.stopIssued = true
 				err := w.eng.Stop(context.Background())
 				if err != nil && !errors.Is(err, errorx.ErrEngineInShutdown) {
 					w.violate("ctl:Stop:err", "Stop(live context) returned %v", err)
